@@ -51,6 +51,18 @@ func bitsToF32(v []int) float32 {
 // StringRefVisitor: "the string passed might get modified after the callback
 // returns").
 func byRef(v []int, f func([]byte) error) error {
+	if sharedRef != nil {
+		// one scratch buffer for every by-reference text, the way a parser hands them out of its internal
+		// buffer: the next text of the same length lands on the very same bytes
+		if len(v) > len(sharedRef) {
+			sharedRef = make([]byte, 2*len(v))
+		}
+		buf := sharedRef[:len(v):len(v)]
+		for i, x := range v {
+			buf[i] = byte(x)
+		}
+		return f(buf)
+	}
 	buf := intsToBytes(v)
 	err := f(buf)
 	for i := range buf {
@@ -58,6 +70,10 @@ func byRef(v []int, f func([]byte) error) error {
 	}
 	return err
 }
+
+// sharedRef != nil selects the shared-scratch mode of byRef (set per case by the drivers that replay streams
+// into the unfolder; the child process runs one case at a time).
+var sharedRef []byte
 
 // replayEvent performs the call described by e on v.
 func replayEvent(v structform.ExtVisitor, e *Event) error {
